@@ -457,6 +457,8 @@ func (g *tgen) special(td *TD, construct string) {
 		td.F = append(td.F[:i], append([]FD{first, second}, td.F[i:]...)...)
 	case "dash-comma":
 		add(FD{Go: g.fieldName(), Tag: "-,", T: g.leaf()})
+	case "js-tags":
+		g.tagFields(td, used, add)
 	case "repeat":
 		// fragment construct: one struct type used by several fields (cached / referenced second occurrence)
 		inner := g.strct(1, nil)
